@@ -52,6 +52,20 @@ impl Check for C14 {
             // make sure most sessions end on the primary screen
             evs.push(Event::FeedStr { s: (*r.pick(&["\x1b[?1047l", "\x1b[?1049l", "\x1b[?47l"])).to_string(), drain: Drain::All });
         }
+        if let Some(v) = super::draw_volume(r, limit.is_some()) {
+            // a volume string as one call of its own
+            let s = super::volume_string(r, v);
+            let at = r.usize_below(evs.len() + 1);
+            let vevs = super::volume_events(&s, 1, r);
+            evs.splice(at..at, vevs);
+            st.bump("volume_runs");
+            st.bump(match v {
+                super::Volume::Lines17 => "volume_2p17_rows_in_one_call",
+                super::Volume::Lines20 => "volume_2p20_rows_in_one_call",
+                super::Volume::Rep20 => "volume_2p20_cells_repeated_in_one_call",
+                super::Volume::Chars21 => "volume_2p21_characters_in_one_call",
+            });
+        }
         super::record_gen(st, &gs);
         super::count_events(st, &evs);
         let mut t = Trace::new("C14", cfg);
@@ -185,7 +199,7 @@ impl Check for C14 {
     }
     fn meta(&self) -> Meta {
         Meta {
-            rule: "sessions without RIS and without resize that end on the primary screen (alternate-screen excursions, scroll regions, DL on row 0, top-anchored partial scrolls, garbage tokens), limit L in {0,1,2,5,9,10,11,15,20,30,40,50,100,200, unlimited} (line-feed bursts of 1150-4000 rows with the larger limits), every cut policy, full drain; oracle: lines drained from every Changes.scrollback ++ final lines() == lines() of an unlimited terminal fed the same characters in one call (order, count, Line == Line), and util::TextCollector gives the same text; non-trivial = at least one line scrolled off; distinct = (final screen, number of handed-out lines)",
+            rule: "volume faults (1 run in ~1400: one feed_str call scrolling 2^17+ / 2^20+ rows off, 17-20 x REP 65535, or 2^21+ characters); sessions without RIS and without resize that end on the primary screen (alternate-screen excursions, scroll regions, DL on row 0, top-anchored partial scrolls, garbage tokens), limit L in {0,1,2,5,9,10,11,15,20,30,40,50,100,200, unlimited} (line-feed bursts of 1150-4000 rows with the larger limits), every cut policy, full drain; oracle: lines drained from every Changes.scrollback ++ final lines() == lines() of an unlimited terminal fed the same characters in one call (order, count, Line == Line), and util::TextCollector gives the same text; non-trivial = at least one line scrolled off; distinct = (final screen, number of handed-out lines)",
             assumptions: vec!["runs that contain a RIS, end on the alternate screen, contain a resize or a non-full drain are skipped (outside the statement)", "a panic on both sides is C01's subject"],
             real: vec!["avt::Vt (both twins)", "avt::util::TextCollector (both twins)", "avt::parser::Parser (lock-step, RIS / alternate detection)"],
             simulated: vec!["App (scroll-heavy)", "Pipe (cuts, feed() loops)", "Consumer (full drain)"],
